@@ -1,7 +1,633 @@
 package main
 
-// replay.go: turn a counterexample model into a Go test against the real code.
+// replay.go: turn a counterexample model into a Go test that drives the REAL
+// function (injected with `go test -overlay`, nothing is written into the repo)
+// and evaluates the violated contract clause on the real run.
+
+import (
+	"bytes"
+	"context"
+	"encoding/json"
+	"fmt"
+	"go/ast"
+	"go/parser"
+	"go/types"
+	"math/big"
+	"os"
+	"os/exec"
+	"path/filepath"
+	"sort"
+	"strconv"
+	"strings"
+	"time"
+)
+
+type inputBuilder struct {
+	x      *Exec
+	fr     *Frame
+	o      *Obligation
+	work   string
+	tmo    int
+	vals   map[*Term]string
+	wants  []*Term
+	wantSet map[*Term]bool
+	pre    []string // preamble statements
+	nvar   int
+	pkgTypes *types.Package
+	partial []string
+	imports map[string]bool
+	small  []*Term
+}
+
+func (b *inputBuilder) val(t *Term) (string, bool) {
+	if t.isLit() {
+		return b.x.c.litText(t), true
+	}
+	if v, ok := b.vals[t]; ok {
+		return v, true
+	}
+	if !b.wantSet[t] {
+		b.wantSet[t] = true
+		b.wants = append(b.wants, t)
+	}
+	return "", false
+}
+
+func parseBV(s string) (*big.Int, bool) {
+	s = strings.TrimSpace(s)
+	switch {
+	case strings.HasPrefix(s, "#x"):
+		n, ok := new(big.Int).SetString(s[2:], 16)
+		return n, ok
+	case strings.HasPrefix(s, "#b"):
+		n, ok := new(big.Int).SetString(s[2:], 2)
+		return n, ok
+	case strings.HasPrefix(s, "(_ bv"):
+		f := strings.Fields(strings.Trim(s, "()"))
+		if len(f) >= 2 {
+			n, ok := new(big.Int).SetString(strings.TrimPrefix(f[1], "bv"), 10)
+			return n, ok
+		}
+	case strings.HasPrefix(s, "(- "):
+		n, ok := new(big.Int).SetString(strings.TrimSuffix(s[3:], ")"), 10)
+		if ok {
+			n.Neg(n)
+		}
+		return n, ok
+	}
+	n, ok := new(big.Int).SetString(s, 10)
+	return n, ok
+}
+
+func (b *inputBuilder) u64(t *Term) (uint64, bool) {
+	s, ok := b.val(t)
+	if !ok {
+		return 0, false
+	}
+	n, ok := parseBV(s)
+	if !ok {
+		return 0, false
+	}
+	return n.Uint64(), true
+}
+
+func (b *inputBuilder) boolv(t *Term) (bool, bool) {
+	s, ok := b.val(t)
+	if !ok {
+		return false, false
+	}
+	return s == "true", true
+}
+
+func (b *inputBuilder) qual() types.Qualifier {
+	return func(p *types.Package) string {
+		if p == b.pkgTypes {
+			return ""
+		}
+		b.imports[p.Path()] = true
+		return p.Name()
+	}
+}
+
+func (b *inputBuilder) typeStr(t types.Type) string { return types.TypeString(t, b.qual()) }
+
+func (b *inputBuilder) newVar(prefix string) string {
+	b.nvar++
+	return fmt.Sprintf("%s_%d", prefix, b.nvar)
+}
+
+// intLit renders the model value of an integer-typed term as a Go expression of type t.
+func (b *inputBuilder) intLit(v *Term, t types.Type) (string, bool) {
+	n, ok := b.u64(v)
+	if !ok {
+		return "", false
+	}
+	w := bvWidth(v.sort)
+	var lit string
+	if isSignedType(t) {
+		lit = strconv.FormatInt(signExt(n, w), 10)
+	} else {
+		lit = strconv.FormatUint(n, 10)
+	}
+	if bt, ok := t.(*types.Basic); ok && (bt.Kind() == types.Int || bt.Info()&types.IsUntyped != 0) {
+		return lit, true
+	}
+	return fmt.Sprintf("%s(%s)", b.typeStr(t), lit), true
+}
+
+const maxReplayElems = 1 << 16
+
+// goValue renders the model value of term v (Go type t) as a Go expression; ok=false if values still need fetching.
+func (b *inputBuilder) goValue(v *Term, t types.Type, depth int) (string, bool) {
+	x := b.x
+	c := x.c
+	entry := b.fr.entry
+	if _, special := x.ti.specialNamed(types.Unalias(t)); special {
+		switch x.ti.sortOf(t) {
+		case "Addr":
+			return b.addrValue(v)
+		case "AddrPort":
+			a, ok1 := b.addrValue(c.Sel("ap_addr", "Addr", v))
+			p, ok2 := b.u64(c.Sel("ap_port", SBV(16), v))
+			b.imports["net/netip"] = true
+			return fmt.Sprintf("netip.AddrPortFrom(%s, %d)", a, p), ok1 && ok2
+		case "Prefix":
+			a, ok1 := b.addrValue(c.Sel("pfx_addr", "Addr", v))
+			p, ok2 := b.u64(c.Sel("pfx_bits1", SBV(8), v))
+			b.imports["net/netip"] = true
+			if ok2 && p == 0 {
+				return "netip.Prefix{}", ok1
+			}
+			return fmt.Sprintf("netip.PrefixFrom(%s, %d)", a, int(p)-1), ok1 && ok2
+		}
+		b.partial = append(b.partial, "value of "+t.String()+" left zero")
+		return fmt.Sprintf("*new(%s)", b.typeStr(t)), true
+	}
+	switch u := types.Unalias(t).Underlying().(type) {
+	case *types.Basic:
+		switch {
+		case u.Info()&types.IsBoolean != 0:
+			bv, ok := b.boolv(v)
+			return fmt.Sprintf("%s(%v)", b.typeStr(t), bv), ok
+		case u.Info()&types.IsInteger != 0:
+			return b.intLit(v, t)
+		case u.Info()&types.IsString != 0:
+			n, ok := b.u64(c.StrLen(v))
+			if !ok {
+				return "", false
+			}
+			if n > 4096 {
+				b.partial = append(b.partial, "string truncated to 4096 bytes")
+				n = 4096
+			}
+			var bs []string
+			all := true
+			for i := uint64(0); i < n; i++ {
+				e, ok := b.u64(c.StrAt(v, c.BV(i, 64)))
+				if !ok {
+					all = false
+				}
+				bs = append(bs, strconv.FormatUint(e, 10))
+			}
+			return fmt.Sprintf("%s([]byte{%s})", b.typeStr(t), strings.Join(bs, ",")), all
+		}
+	case *types.Slice:
+		if !x.ti.isLeaf(u.Elem()) || !isIntType(u.Elem()) {
+			n, ok := b.u64(c.SlLen(v))
+			if !ok {
+				return "", false
+			}
+			b.partial = append(b.partial, "elements of "+t.String()+" left zero")
+			if n > maxReplayElems {
+				return "", true
+			}
+			return fmt.Sprintf("make(%s, %d)", b.typeStr(t), n), true
+		}
+		isNil, ok0 := b.boolv(c.Eq(c.SlPtr(v), c.Null()))
+		ln, ok1 := b.u64(c.SlLen(v))
+		cp, ok2 := b.u64(c.SlCap(v))
+		if !(ok0 && ok1 && ok2) {
+			return "", false
+		}
+		if isNil && cp == 0 {
+			return fmt.Sprintf("%s(nil)", b.typeStr(t)), true
+		}
+		if cp > maxReplayElems {
+			b.partial = append(b.partial, fmt.Sprintf("model needs a %d-element slice: too large to replay", cp))
+			return "", true
+		}
+		name := b.newVar("sl")
+		var sb strings.Builder
+		fmt.Fprintf(&sb, "%s := make(%s, %d, %d)\n", name, b.typeStr(t), ln, cp)
+		all := true
+		es := x.ti.sortOf(u.Elem())
+		mem := x.memByKey(entry, es)
+		fmt.Fprintf(&sb, "%s = %s[:%d]\n", name, name, cp)
+		for i := uint64(0); i < cp; i++ {
+			e, ok := b.u64(c.Select(mem, x.sliceElemAddr(v, c.BV(i, 64))))
+			if !ok {
+				all = false
+				continue
+			}
+			if e != 0 {
+				lit, _ := b.intLit(c.BV(e, bvWidth(es)), u.Elem())
+				fmt.Fprintf(&sb, "%s[%d] = %s\n", name, i, lit)
+			}
+		}
+		fmt.Fprintf(&sb, "%s = %s[:%d]\n", name, name, ln)
+		if all {
+			b.pre = append(b.pre, sb.String())
+		}
+		return name, all
+	case *types.Pointer:
+		isNil, ok := b.boolv(c.Eq(v, c.Null()))
+		if !ok {
+			return "", false
+		}
+		if isNil {
+			return "nil", true
+		}
+		if depth > 2 {
+			b.partial = append(b.partial, "deep pointer left as zero object")
+			return fmt.Sprintf("new(%s)", b.typeStr(u.Elem())), true
+		}
+		name := b.newVar("p")
+		inner, ok := b.goValue(x.load(entry, v, u.Elem()), u.Elem(), depth+1)
+		if !ok {
+			return "", false
+		}
+		b.pre = append(b.pre, fmt.Sprintf("%s := new(%s)\n*%s = %s\n", name, b.typeStr(u.Elem()), name, inner))
+		return name, true
+	case *types.Struct:
+		var fs []string
+		all := true
+		s := x.ti.structSort(types.Unalias(t), u)
+		for i := 0; i < u.NumFields(); i++ {
+			f := u.Field(i)
+			if f.Name() == "_" {
+				continue
+			}
+			if f.Pkg() != nil && f.Pkg() != b.pkgTypes && !f.Exported() {
+				b.partial = append(b.partial, "unexported foreign field "+f.Name()+" left zero")
+				continue
+			}
+			fv := c.Sel(fmt.Sprintf("%s_f%d", s, i), x.ti.sortOf(f.Type()), v)
+			e, ok := b.goValue(fv, f.Type(), depth+1)
+			if !ok {
+				all = false
+				continue
+			}
+			if e != "" {
+				fs = append(fs, fmt.Sprintf("%s: %s", f.Name(), e))
+			}
+		}
+		return fmt.Sprintf("%s{%s}", b.typeStr(t), strings.Join(fs, ", ")), all
+	case *types.Array:
+		if u.Len() > 64 || !isIntType(u.Elem()) {
+			b.partial = append(b.partial, "array "+t.String()+" left zero")
+			return fmt.Sprintf("%s{}", b.typeStr(t)), true
+		}
+		var es []string
+		all := true
+		for i := int64(0); i < u.Len(); i++ {
+			e, ok := b.intLit(c.Select(v, c.BV(uint64(i), 64)), u.Elem())
+			if !ok {
+				all = false
+			}
+			es = append(es, e)
+		}
+		return fmt.Sprintf("%s{%s}", b.typeStr(t), strings.Join(es, ", ")), all
+	case *types.Interface, *types.Signature, *types.Map, *types.Chan:
+		b.partial = append(b.partial, "value of "+t.String()+" left nil")
+		return "nil", true
+	}
+	b.partial = append(b.partial, "value of "+t.String()+" left zero")
+	return fmt.Sprintf("*new(%s)", b.typeStr(t)), true
+}
+
+func (b *inputBuilder) addrValue(v *Term) (string, bool) {
+	c := b.x.c
+	hi, ok1 := b.u64(c.addrHi(v))
+	lo, ok2 := b.u64(c.addrLo(v))
+	z, ok3 := b.u64(c.addrZ(v))
+	if !(ok1 && ok2 && ok3) {
+		return "", false
+	}
+	b.imports["net/netip"] = true
+	switch {
+	case z == z0:
+		return "netip.Addr{}", true
+	case z == z4:
+		return fmt.Sprintf("netip.AddrFrom4([4]byte{%d,%d,%d,%d})", byte(lo>>24), byte(lo>>16), byte(lo>>8), byte(lo)), true
+	}
+	var bs []string
+	for i := 0; i < 8; i++ {
+		bs = append(bs, strconv.Itoa(int(byte(hi>>(56-8*i)))))
+	}
+	for i := 0; i < 8; i++ {
+		bs = append(bs, strconv.Itoa(int(byte(lo>>(56-8*i)))))
+	}
+	e := fmt.Sprintf("netip.AddrFrom16([16]byte{%s})", strings.Join(bs, ","))
+	if z > z6 {
+		e += fmt.Sprintf(".WithZone(\"z%d\")", z)
+	}
+	return e, true
+}
+
+// fetch asks the solver for the wanted terms, pinning everything already known.
+func (b *inputBuilder) fetch() bool {
+	if len(b.wants) == 0 {
+		return true
+	}
+	x := b.x
+	c := x.c
+	var pins []*Term
+	var keys []*Term
+	for t := range b.vals {
+		keys = append(keys, t)
+	}
+	sort.Slice(keys, func(i, j int) bool { return keys[i].id < keys[j].id })
+	for _, t := range keys {
+		if lit := b.litOf(t, b.vals[t]); lit != nil {
+			pins = append(pins, c.Eq(t, lit))
+		}
+	}
+	try := func(extra []*Term) ([]string, bool) {
+		o2 := *b.o
+		o2.Guard = c.And(append([]*Term{b.o.Guard}, append(pins, extra...)...)...)
+		return x.queryModel(&o2, b.wants, b.work, b.tmo)
+	}
+	vals, ok := try(b.small)
+	if !ok && len(b.small) > 0 {
+		vals, ok = try(nil)
+	}
+	if !ok {
+		return false
+	}
+	for i, t := range b.wants {
+		b.vals[t] = vals[i]
+	}
+	b.wants = nil
+	return true
+}
+
+func (b *inputBuilder) litOf(t *Term, s string) *Term {
+	c := b.x.c
+	switch {
+	case t.sort == SBool:
+		return c.Bool(s == "true")
+	case bvWidth(t.sort) > 0 && bvWidth(t.sort) <= 64:
+		n, ok := parseBV(s)
+		if !ok {
+			return nil
+		}
+		return c.BV(n.Uint64(), bvWidth(t.sort))
+	case t.sort == SInt:
+		n, ok := parseBV(s)
+		if !ok {
+			return nil
+		}
+		return c.Int(n.Int64())
+	}
+	return nil
+}
+
+// clauseToGo rewrites a contract clause for evaluation at run time: old(e) -> captured variable.
+func clauseToGo(text string) (expr string, olds []string, evaluable bool) {
+	e, err := parser.ParseExpr(text)
+	if err != nil {
+		return "", nil, false
+	}
+	evaluable = true
+	type rep struct {
+		from, to int
+		with     string
+	}
+	var reps []rep
+	ast.Inspect(e, func(n ast.Node) bool {
+		call, ok := n.(*ast.CallExpr)
+		if !ok {
+			return true
+		}
+		id, ok := call.Fun.(*ast.Ident)
+		if !ok {
+			return true
+		}
+		switch id.Name {
+		case "old":
+			arg := text[call.Args[0].Pos()-1 : call.Args[0].End()-1]
+			name := fmt.Sprintf("verifOld%d", len(olds))
+			olds = append(olds, fmt.Sprintf("%s := %s", name, arg))
+			reps = append(reps, rep{int(call.Pos()) - 1, int(call.End()) - 1, name})
+			return false
+		case "forall", "exists", "fresh", "allocated", "unchanged", "elems":
+			evaluable = false
+		}
+		return true
+	})
+	sort.Slice(reps, func(i, j int) bool { return reps[i].from > reps[j].from })
+	out := text
+	for _, r := range reps {
+		out = out[:r.from] + r.with + out[r.to:]
+	}
+	return out, olds, evaluable
+}
 
 func (x *Exec) buildReplay(prop string, o *Obligation, work string, timeout int) (string, bool) {
-	return "", false
+	fr := o.Frame
+	if fr == nil || fr.fn == nil || fr.entry == nil {
+		return "", false
+	}
+	pkg := x.P.PkgByPath[fr.fn.Pkg.Pkg.Path()]
+	if pkg == nil {
+		return "", false
+	}
+	c := x.c
+	b := &inputBuilder{x: x, fr: fr, o: o, work: work, tmo: min(timeout, 20), vals: map[*Term]string{}, wantSet: map[*Term]bool{}, pkgTypes: pkg.Types, imports: map[string]bool{"testing": true}}
+	for i := range fr.fn.Params {
+		if fr.params[i].sort == SSlice {
+			b.small = append(b.small, c.BVCmp("bvule", c.SlCap(fr.params[i]), c.BV(4096, 64)))
+		}
+	}
+	var argExprs []string
+	for round := 0; round < 6; round++ {
+		b.pre = nil
+		b.nvar = 0
+		b.partial = nil
+		argExprs = nil
+		complete := true
+		for i, p := range fr.fn.Params {
+			e, ok := b.goValue(fr.params[i], p.Type(), 0)
+			if !ok {
+				complete = false
+			}
+			if e == "" && ok {
+				return "// model not replayable: " + strings.Join(b.partial, "; ") + "\n", false
+			}
+			argExprs = append(argExprs, e)
+		}
+		if complete {
+			break
+		}
+		if !b.fetch() {
+			return "// the solver returned no model values for the inputs\n", false
+		}
+		if round == 5 {
+			return "// model extraction did not converge\n", false
+		}
+	}
+	// generate the test
+	fn := fr.fn
+	var body strings.Builder
+	for _, p := range b.pre {
+		body.WriteString(p)
+	}
+	names := make([]string, len(fn.Params))
+	for i, p := range fn.Params {
+		n := p.Name()
+		if n == "" || n == "_" {
+			n = fmt.Sprintf("arg%d", i)
+		}
+		names[i] = n
+		fmt.Fprintf(&body, "var %s %s = %s\n_ = %s\n", n, b.typeStr(p.Type()), argExprs[i], n)
+	}
+	if fr.contract != nil {
+		for _, r := range fr.contract.Replay {
+			body.WriteString(r + "\n")
+		}
+		for _, oc := range fr.contract.Olds {
+			fmt.Fprintf(&body, "%s := %s\n_ = %s\n", oc.Ghost, oc.Text, oc.Ghost)
+		}
+	}
+	// which clause to evaluate
+	clauseExpr, evaluable := "", false
+	var oldStmts []string
+	if o.Kind == "ensures" && o.Text != "" {
+		clauseExpr, oldStmts, evaluable = clauseToGo(o.Text)
+	}
+	for _, s := range oldStmts {
+		body.WriteString(s + "\n_ = " + strings.SplitN(s, " ", 2)[0] + "\n")
+	}
+	// call
+	sig := fn.Signature
+	var call string
+	if sig.Recv() != nil {
+		call = fmt.Sprintf("%s.%s(%s)", names[0], fn.Name(), strings.Join(names[1:], ", "))
+	} else {
+		call = fmt.Sprintf("%s(%s)", fn.Name(), strings.Join(names, ", "))
+	}
+	if sig.Variadic() {
+		call = strings.TrimSuffix(call, ")") + "...)"
+	}
+	nres := sig.Results().Len()
+	var resNames []string
+	for i := 0; i < nres; i++ {
+		resNames = append(resNames, fmt.Sprintf("result%d", i))
+	}
+	body.WriteString("verifPanicked := true\nvar verifPanicVal any\n")
+	for i := 0; i < nres; i++ {
+		fmt.Fprintf(&body, "var %s %s\n_ = %s\n", resNames[i], b.typeStr(sig.Results().At(i).Type()), resNames[i])
+	}
+	body.WriteString("func() {\ndefer func() { if verifPanicked { verifPanicVal = recover() } }()\n")
+	if nres > 0 {
+		fmt.Fprintf(&body, "%s = %s\n", strings.Join(resNames, ", "), call)
+	} else {
+		body.WriteString(call + "\n")
+	}
+	body.WriteString("verifPanicked = false\n}()\n")
+	mayPanic := fr.contract != nil && fr.contract.MayPanic
+	if !mayPanic {
+		body.WriteString("if verifPanicked { verifT.Fatalf(\"VERIF-REPLAY-VIOLATED: the real function panicked: %v\", verifPanicVal) }\n")
+	} else {
+		body.WriteString("if verifPanicked { verifT.Logf(\"panicked (allowed by contract): %v\", verifPanicVal); return }\n")
+	}
+	if evaluable {
+		if nres == 1 {
+			body.WriteString("result := result0\n_ = result\n")
+			if nm := sig.Results().At(0).Name(); nm != "" && nm != "_" && !contains(names, nm) {
+				fmt.Fprintf(&body, "%s := result0\n_ = %s\n", nm, nm)
+			}
+		} else {
+			for i := 0; i < nres; i++ {
+				if nm := sig.Results().At(i).Name(); nm != "" && nm != "_" && !contains(names, nm) {
+					fmt.Fprintf(&body, "%s := result%d\n_ = %s\n", nm, i, nm)
+				}
+			}
+		}
+		fmt.Fprintf(&body, "if !(%s) { verifT.Fatalf(\"VERIF-REPLAY-VIOLATED: clause does not hold on the real run: %%s\", %q) }\n", clauseExpr, o.Text)
+	}
+	body.WriteString("verifT.Logf(\"VERIF-REPLAY-PASSED\")\n")
+	testName := "TestVerifReplay_" + sanitize(strings.ReplaceAll(o.Name, ".", "_"))
+	var src strings.Builder
+	src.WriteString("//go:build verif\n\n")
+	fmt.Fprintf(&src, "// Counterexample replay for obligation %s (property %s).\n", o.Name, prop)
+	fmt.Fprintf(&src, "// Clause: %s\n", o.Text)
+	pkgRel, _ := filepath.Rel(x.P.Repo, filepath.Dir(x.P.Fset.Position(fr.decl.Pos()).Filename))
+	fmt.Fprintf(&src, "// Run: /verif/check %s --replay <this file>   (go test -tags verif -overlay ... -run %s ./%s)\n", prop, testName, pkgRel)
+	fmt.Fprintf(&src, "// verif-replay-pkg: ./%s\n// verif-replay-test: %s\n", pkgRel, testName)
+	if len(b.partial) > 0 {
+		fmt.Fprintf(&src, "// Partial model: %s\n", strings.Join(b.partial, "; "))
+	}
+	fmt.Fprintf(&src, "\npackage %s\n\nimport (\n", pkg.Types.Name())
+	var imps []string
+	for p := range b.imports {
+		imps = append(imps, p)
+	}
+	sort.Strings(imps)
+	for _, p := range imps {
+		fmt.Fprintf(&src, "\t%q\n", p)
+	}
+	src.WriteString(")\n\n")
+	fmt.Fprintf(&src, "func %s(verifT *testing.T) {\n%s}\n", testName, body.String())
+	text := src.String()
+	// save and run
+	dir := *flagReplays
+	if dir == "" {
+		dir = filepath.Join("/verif/replays", prop)
+	}
+	os.MkdirAll(dir, 0o755)
+	gofile := filepath.Join(dir, sanitizeFile(o.Name)+"_test.go")
+	os.WriteFile(gofile, []byte(text), 0o644)
+	out, violated := runReplay(x.P.Repo, gofile, "./"+pkgRel, testName)
+	res := "// replay file: " + gofile + "\n// replay output:\n"
+	for _, l := range strings.Split(trunc(out, 3000), "\n") {
+		res += "//   " + l + "\n"
+	}
+	if violated {
+		o.replayFile = gofile
+	}
+	return res, violated
+}
+
+func contains(xs []string, s string) bool {
+	for _, x := range xs {
+		if x == s {
+			return true
+		}
+	}
+	return false
+}
+
+// runReplay injects the test file into the package with -overlay and runs it.
+func runReplay(repo, gofile, pkg, test string) (string, bool) {
+	tmp, err := os.MkdirTemp("", "govc-replay")
+	if err != nil {
+		return err.Error(), false
+	}
+	defer os.RemoveAll(tmp)
+	target := filepath.Join(repo, pkg, "zz_verif_replay_test.go")
+	ov := map[string]any{"Replace": map[string]string{target: gofile}}
+	ovb, _ := json.Marshal(ov)
+	ovf := filepath.Join(tmp, "ov.json")
+	os.WriteFile(ovf, ovb, 0o644)
+	ctx, cancel := context.WithTimeout(context.Background(), 180*time.Second)
+	defer cancel()
+	cmd := exec.CommandContext(ctx, "bash", "-c", fmt.Sprintf("ulimit -v 8000000; cd %q && go test -tags verif -overlay %q -vet=off -count=1 -timeout 60s -run '^%s$' -v %s 2>&1", repo, ovf, test, pkg))
+	cmd.Env = append(os.Environ(), "GOFLAGS=-mod=mod", "GOPROXY=off", "GOSUMDB=off", "GOTOOLCHAIN=local")
+	var out bytes.Buffer
+	cmd.Stdout = &out
+	cmd.Stderr = &out
+	cmd.Run()
+	s := out.String()
+	return s, strings.Contains(s, "VERIF-REPLAY-VIOLATED")
 }
